@@ -1,6 +1,6 @@
 /-
 The tie between the generated `StreamTransport` methods (`Generated/StreamBodies.lean`, written by
-`tools/translate.py` from the Python of the working tree on every run of C03 / C17) and the hand-written
+`tools/translate.py` from the Python of the working tree on every run of C03 / C16 / C17) and the hand-written
 `Transport.connect / disconnect / read / write` of `Model/Stream.lean` that the C17 theorems speak about: each
 generated method, run on any transport object with any injected fault, has exactly the outcome and the resulting
 transport of its hand-written counterpart.
